@@ -69,10 +69,10 @@ macro_rules! ribbon_caps {
 }
 
 /// capacities for which a monomorphised instance exists
-pub const RIBBON_CAPS: [usize; 26] = [1, 2, 3, 4, 5, 9, 13, 16, 18, 26, 43, 50, 69, 137, 171, 188, 213, 266, 375, 545, 638, 750, 817, 1000, 1633, 3265];
+pub const RIBBON_CAPS: [usize; 129] = [1, 2, 3, 4, 5, 9, 13, 16, 18, 26, 35, 43, 50, 52, 60, 69, 77, 86, 94, 103, 111, 120, 125, 128, 137, 145, 154, 162, 171, 179, 188, 196, 205, 213, 222, 230, 239, 247, 256, 264, 266, 273, 281, 290, 298, 307, 315, 324, 332, 341, 349, 358, 366, 375, 383, 392, 400, 409, 417, 426, 434, 443, 451, 460, 468, 477, 485, 494, 502, 511, 519, 528, 536, 545, 553, 562, 570, 579, 587, 596, 604, 613, 621, 630, 638, 647, 655, 664, 672, 681, 689, 698, 706, 715, 723, 732, 740, 749, 750, 757, 766, 774, 783, 791, 800, 808, 817, 825, 834, 842, 851, 953, 1000, 1089, 1500, 1531, 1633, 1718, 1769, 1905, 2177, 2999, 3061, 3265, 3435, 3537, 3809, 4268, 4302];
 
 pub fn make_ribbon(cap: usize, sr: f32, sp: f32, dr: f32, pu: f32) -> Option<Box<dyn RibbonDyn>> {
-    ribbon_caps!(cap, sr, sp, dr, pu; 1, 2, 3, 4, 5, 9, 13, 16, 18, 26, 43, 50, 69, 137, 171, 188, 213, 266, 375, 545, 638, 750, 817, 1000, 1633, 3265)
+    ribbon_caps!(cap, sr, sp, dr, pu; 1, 2, 3, 4, 5, 9, 13, 16, 18, 26, 35, 43, 50, 52, 60, 69, 77, 86, 94, 103, 111, 120, 125, 128, 137, 145, 154, 162, 171, 179, 188, 196, 205, 213, 222, 230, 239, 247, 256, 264, 266, 273, 281, 290, 298, 307, 315, 324, 332, 341, 349, 358, 366, 375, 383, 392, 400, 409, 417, 426, 434, 443, 451, 460, 468, 477, 485, 494, 502, 511, 519, 528, 536, 545, 553, 562, 570, 579, 587, 596, 604, 613, 621, 630, 638, 647, 655, 664, 672, 681, 689, 698, 706, 715, 723, 732, 740, 749, 750, 757, 766, 774, 783, 791, 800, 808, 817, 825, 834, 842, 851, 953, 1000, 1089, 1500, 1531, 1633, 1718, 1769, 1905, 2177, 2999, 3061, 3265, 3435, 3537, 3809, 4268, 4302)
 }
 
 pub enum Obj {
